@@ -28,6 +28,7 @@ RetNew(h) == /\ Ev.ok = 1 /\ (LIFE => Ev.cloexec = 1)
 RetSimple(h, r) == Upd(h, r) /\ UNCHANGED <<queue, sent, rcvd, dg>>
 RetBind(h) == IF sk[h].closed THEN ClosedRule(h) /\ UNCHANGED kvars ELSE Ev.ok = 1 /\ UNCHANGED kvars
 RetListen(h) == IF sk[h].closed THEN ClosedRule(h) /\ UNCHANGED kvars
+                ELSE IF sk[h].udp THEN Ev.ok = 0 /\ UNCHANGED kvars          \* a datagram socket cannot listen: the call fails and changes nothing
                 ELSE Ev.ok = 1 /\ RetSimple(h, [sk[h] EXCEPT !.listening = TRUE])
 RetConnect(h) == LET L == pend[h].a IN
     IF sk[h].closed THEN ClosedRule(h) /\ UNCHANGED kvars
